@@ -24,6 +24,12 @@ STATES = {
     'established': [('TICK', 0), ('CONN_OK', 0), ('RX', 0, 'OPEN_OK'), ('RX', 0, 'KA')],
     'idle-after-error': [('TICK', 0), ('CONN_OK', 0), ('RX', 0, 'OPEN_OK'), ('RX', 0, 'KA'), ('RX', 0, 'BAD_MARKER')],
     'idle-after-error-closed': [('TICK', 0), ('CONN_OK', 0), ('RX', 0, 'OPEN_OK'), ('RX', 0, 'KA'), ('RX', 0, 'BAD_MARKER'), ('CLOSE_DONE', 0)],
+    # the operator stopped the session and the close is still in flight (Cease written, loseConnection requested)
+    'stopped-closing': [('TICK', 0), ('CONN_OK', 0), ('RX', 0, 'OPEN_OK'), ('RX', 0, 'KA'), ('OP_STOP',)],
+    # the peer sent a NOTIFICATION, the agent asked for the close, connectionLost has not come yet
+    'notified-closing': [('TICK', 0), ('CONN_OK', 0), ('RX', 0, 'OPEN_OK'), ('RX', 0, 'KA'), ('RX', 0, 'NOTIF_CEASE')],
+    # a restart in flight: stopped, started again, new attempt pending while the old close is still in flight
+    'restarting': [('TICK', 0), ('CONN_OK', 0), ('RX', 0, 'OPEN_OK'), ('RX', 0, 'KA'), ('OP_STOP',), ('OP_START',)],
     'stopped': [('TICK', 0), ('CONN_OK', 0), ('RX', 0, 'OPEN_OK'), ('RX', 0, 'KA'), ('OP_STOP',), ('CLOSE_DONE', 0)],
     'peer-closed': [('TICK', 0), ('CONN_OK', 0), ('RX', 0, 'OPEN_OK'), ('RX', 0, 'KA'), ('PEER_CLOSE', 0)],
 }
@@ -299,7 +305,9 @@ def task_rr_bin(args):
                 viol.append(('C16|iii|route-refresh on the wire differs from the request|%s' % cname,
                              {'afi': afi, 'safi': safi, 'wrote': [x.hex() for x in new], 'want': want.hex()}))
     u1, u2 = simple_update(65001), simple_update(65001, prefix=b'\x10\x0a\x09')
-    for name, data in (('one', u1), ('two', u1 + u2)):
+    eor = wire.frame(wire.UPDATE, b'\x00\x00\x00\x00')
+    for name, data in (('one', u1), ('two', u1 + u2), ('update+end-of-rib', u1 + eor), ('end-of-rib', eor),
+                       ('update+cut-header', u1 + u2[:10]), ('update+2-octets', u1 + b'\xff\xff'), ('2-octets', b'\xff\xff')):
         for fmt in (None, 'human'):
             w = W.replay({}, STATES['established'], M)
             t = w.readable()[0].transport
